@@ -1010,6 +1010,11 @@ def million_digits(ctx):
     rep = ctx["report"]
     want = {"10^1100000": (1100001, "100000000000", "000000000000"), "10^1100000 + 7": (1100001, "100000000000", "000000000007"),
             "-(10^1000001)": (1000003, "-10000000000", "000000000000")}
+    # a fraction beyond 10^999999: the mixed number in full and an approximation with a seven-digit exponent (/repo f5c3ea0)
+    for o in C.run_impl(_million_digits, ["(10^1000001+1)/3"], ctx["rundir"], limit=600.0, chunksize=1):
+        if o.get("hung") or o.get("escaped") or o.get("status") != 0 or not (o.get("tail") or "").endswith("e+1000000)") or o.get("head") != "333333333333":
+            rep.violation(dict(op="display", kinds=["frac"], cond="beyond-10^999999"),
+                          "C15 fails: (10^1000001+1)/3 is not displayed (%s)" % ({k: v for k, v in o.items() if k != "text"},), dict(text="(10^1000001+1)/3", observed=o))
     for o in C.run_impl(_million_digits, list(want), ctx["rundir"], limit=300.0, chunksize=1):
         n, head, tail = want[o["text"]] if "text" in o else (None, None, None)
         if o.get("hung") or o.get("escaped") or o.get("status") != 0 or o.get("n") != n or o.get("head") != head or o.get("tail") != tail:
